@@ -514,6 +514,18 @@ func (a *An) tlvLoopComplete(rule string) {
 		a.R.Check(ok, rule, "processTLVs|exit#"+string(rune('0'+n)), "the TLV loop ends only when all TLVs were handled or a handler failed", a.C.InstrPos(ex.From.Instrs[len(ex.From.Instrs)-1]),
 			"the loop over the TLVs of a message can be left early ("+why+"): TLVs after that point (e.g. a disconnect) are never acted upon")
 	}
+	// every TLV reaches its handler: an iteration goes back to the loop head only after the dispatch, or because no
+	// handler exists for the type (no TLV kind is skipped for another reason, a per-version ceiling say)
+	for _, pb := range l.Header.Preds {
+		if !l.Body[pb] {
+			continue
+		}
+		last := pb.Instrs[len(pb.Instrs)-1]
+		fs := a.F.edgeOut(pb, l.Header)
+		okSkip := fs.Has("called:dyn") || fs.Has("fail:messageHandlerForTLV") || instrDominates(dyn, last)
+		a.R.Check(okSkip, rule, "processTLVs|no-skip@"+pb.Comment, "an iteration ends after the handler ran or because the type has no handler", a.C.InstrPos(last),
+			"the loop continues with the next TLV without having dispatched this one and without a failed handler lookup: TLVs of some kind are silently dropped")
+	}
 	// the TLVs are handled in the order in which they stand in the message: the loop runs over the parameter itself,
 	// indexed by the loop counter (an abort in front of a new first message must be seen first)
 	inOrder := false
